@@ -39,8 +39,13 @@ def run(ck):
     rs = g.site_of(removes[0])
     lst = skip_copies(removes[0]["args"][0])
     victim = deref_local(ro, lst)
-    ck.require(is_call(victim, ("first", "constFirst", "front", "last", "constLast", "back", "takeFirst", "takeLast")), "victim expression %s not recognised" % describe(victim))
-    listref = skip_copies(skip_copies(victim).get("obj"))
+    counted = None
+    if is_call(victim, ("at", "operator[]", "value")) or (isinstance(victim, dict) and victim.get("k") == "call" and victim.get("op") == "[]"):
+        counted = counted_prefix(ro, removes[0], victim)
+        ck.require(counted is not None, "victim expression %s is indexed, but not by a 0..k counting loop over an unmodified list" % describe(victim))
+    else:
+        ck.require(is_call(victim, ("first", "constFirst", "front", "last", "constLast", "back", "takeFirst", "takeLast")), "victim expression %s not recognised" % describe(victim))
+    listref = skip_copies(counted["list"]) if counted else skip_copies(skip_copies(victim).get("obj"))
     ck.require(listref.get("k") == "ref", "victim list is not a local")
     ldecl = listref["decl"]
 
@@ -77,6 +82,16 @@ def run(ck):
             return "size"
         return None
     cf = comparison_form(cond, sym)
+    if counted:
+        # `for (i = 0; i < E; ++i) remove(list.at(i))` with an unmodified list: deletes the first E candidates. The first
+        # evaluation of the condition decides whether anything is deleted: 0 < E  <=>  E - 1 >= 0
+        lf = linear(counted["bound"], sym, ro)
+        cf = None
+        if lf is not None:
+            f_ = dict(lf)
+            f_[""] = f_.get("", 0) - 1
+            cf = ({k_: v_ for k_, v_ in f_.items() if v_ != 0 or k_ == ""}, ">=")
+        cond = counted["cond"]
     if cf is None:
         ck.ob("C06-O3", sitestr(ro, cond), None, "loop condition %s is not a linear comparison of the list size and the limit" % describe(cond))
     else:
@@ -92,7 +107,11 @@ def run(ck):
     condsite = g.site_of(cond)
     first_end = is_call(victim, ("first", "constFirst", "front", "takeFirst"))
     pops = [n for n in ro.calls() if n.get("ck") == "member" and is_ref_to(n.get("obj"), ldecl) and name_is(n.get("callee"), ("removeFirst", "pop_front", "takeFirst", "removeLast", "pop_back", "takeLast", "removeAt", "erase"))]
-    if len(pops) != 1:
+    if counted:
+        first_end = True
+        ck.ob("C06-O3", sitestr(ro, loop), not pops, "the loop deletes the candidates at index 0, 1, ... of the unmodified list: exactly the first (oldest) `bound` files, each once" if not pops else
+              "the counting loop also pops the list it indexes", key="removeOldFiles|iteration")
+    elif len(pops) != 1:
         ck.ob("C06-O3", sitestr(ro, loop), False if not pops else None, "the loop pops the list %d times per iteration" % len(pops), key="removeOldFiles|pop-count")
     else:
         p = pops[0]
@@ -346,3 +365,30 @@ def ordering(ck, S, victim_is_first):
     # the sorted list is what is returned (paths in that order)
     rs = returns(fr)
     ck.ob("C06-O4", sitestr(fr), len(rs) == 1, "single return of the ordered list", key="findRotatedFiles|return")
+
+
+def counted_prefix(fn, remove_call, victim):
+    """recognises  for (i = 0; i < BOUND; ++i) remove(list.at(i))  over a list that the loop does not modify;
+    returns {list, bound, cond} or None"""
+    v = skip_copies(victim)
+    obj = v.get("obj") if v.get("ck") == "member" else (v.get("args") or [None])[0]
+    idx = (v.get("args") or [None])[-1]
+    lst = skip_copies(obj)
+    iv = skip_copies(idx)
+    if not (isinstance(lst, dict) and lst.get("k") == "ref" and isinstance(iv, dict) and iv.get("k") == "ref"):
+        return None
+    loops = [l for l in enclosing_loops(fn, remove_call) if l.get("k") == "for"]
+    if not loops:
+        return None
+    loop = loops[0]
+    init = loop.get("init")
+    okinit = isinstance(init, dict) and init.get("k") == "decl" and len(init.get("vars", [])) == 1 and init["vars"][0].get("decl") == iv.get("decl") and const_int(init["vars"][0].get("init")) == 0
+    cond = skip_copies(loop.get("cond"))
+    okcond = isinstance(cond, dict) and cond.get("k") == "binop" and cond.get("op") == "<" and is_ref_to(cond.get("lhs"), iv.get("decl"))
+    inc = skip_copies(loop.get("inc"))
+    okinc = isinstance(inc, dict) and inc.get("k") == "unop" and inc.get("op") == "++" and is_ref_to(inc.get("e"), iv.get("decl"))
+    other_writes = [r for r in refs_to(fn, iv["decl"]) if (write_kind(fn, r) or assignment_target(fn, r)[0] is not None) and not any(a.get("id") == inc.get("id") for a in [fn.nodes.get(fn.parent.get(r["id"]), {})])]
+    list_writes = [r for r in refs_to(fn, lst["decl"]) if write_kind(fn, r) or assignment_target(fn, r)[0] is not None]
+    if not (okinit and okcond and okinc) or other_writes or list_writes:
+        return None
+    return {"list": lst, "bound": cond.get("rhs"), "cond": cond}
